@@ -41,6 +41,8 @@ RELEVANT = {
     "DEFAULT_HOOK_ALLOW_FAILURE": ["C10", "C20", "C07"], "DEFAULT_CSR_DIGEST": ["C01"],
     "DEFAULT_CERT_KEY_TYPE": ["C01"], "DEFAULT_ACCOUNT_KEY_TYPE": ["C11", "C04"],
     "DEFAULT_EXTERNAL_ACCOUNT_JWA": ["C04", "C11"],
+    "MAX_HOOK_GROUP_DEPTH": ["C10", "C14", "C19"], "MAX_HOOK_GROUP_MEMBERS": ["C10", "C14", "C19"],
+    "MAX_INCLUDE_DEPTH": ["C14", "C19"],
     "man_vars": ["C10"], "default_hooks": ["C20"], "profile": ["C17"], "global_merge": ["C13", "C14"],
     "trust": ["C18"], "senders": ["C09", "C12", "C04", "C08"],
     "lower": ["C01", "C16", "C05", "C06"],
@@ -184,7 +186,8 @@ def gen_consts():
                 "DEFAULT_HTTP_FAIL_WAIT_SEC", "DEFAULT_HTTP_MAX_REDIRECT", "DEFAULT_CERT_FILE_MODE", "DEFAULT_PK_FILE_MODE",
                 "DEFAULT_ACCOUNT_FILE_MODE", "DEFAULT_CERT_RANDOM_EARLY_RENEW",
                 "DEFAULT_CERT_RENEW_DELAY", "MAX_RATE_LIMIT_SLEEP_MILISEC",
-                "MIN_RATE_LIMIT_SLEEP_MILISEC", "DEFAULT_POOL_TIME", "DEFAULT_RENEW_FAIL_WAIT_SEC"]
+                "MIN_RATE_LIMIT_SLEEP_MILISEC", "DEFAULT_POOL_TIME", "DEFAULT_RENEW_FAIL_WAIT_SEC",
+                "MAX_HOOK_GROUP_DEPTH", "MAX_HOOK_GROUP_MEMBERS", "MAX_INCLUDE_DEPTH"]
     want_bool = ["DEFAULT_KP_REUSE", "DEFAULT_HOOK_ALLOW_FAILURE"]
     L = ["/- GENERATED by /verif/py/gen.py from /repo (acmed/src/main.rs, duration.rs,",
          "   main_event_loop.rs, endpoint.rs) on every run. Do not edit. -/",
